@@ -108,6 +108,35 @@ theorem sim (all : List String) (f : Nat) :
             rw [Py.eval, hcur, ok_bind, hv, ok_bind]; exact hr
           exact assign_sim hst hwt' (by rw [hok.2]; rfl) hpy' f
         · cases htr
+      | tuple k xs es =>
+        rw [trNested] at htr
+        split at htr
+        · cases htr
+          simp only [Stmt.okNested, Bool.and_eq_true, beq_iff_eq, decide_eq_true_eq, List.all_eq_true] at hok
+          obtain ⟨⟨⟨⟨⟨_, hlen⟩, hwt⟩, htg⟩, _⟩, hte⟩ := hok
+          have htmp : ∀ j, te.lookup (tmpName j) = none :=
+            lookup_tmp_none (List.all_eq_true.mpr hte)
+          rw [Py.exec] at hpy
+          obtain ⟨vs, hvs, hpy⟩ := bind_ok hpy
+          rw [if_pos hlen] at hpy
+          · cases hpy
+            rw [C.exec]
+            simp only [tmp_guard htmp, List.length_map, Bool.false_eq_true, if_false, hlen, ne_eq, not_true_eq_false]
+            rcases declTemps_sim te stp.store es vs k te stc.store (fun _ _ h => h) (fun j _ => htmp j) hst.rel hwt hvs
+              with ⟨sc1, hd, hfr, hheld⟩ | hd
+            · rw [hd, ok_bind]
+              have hrel1 : Rel te stp.store sc1 := by
+                refine Rel_agree hst.rel (fun y t hy => hfr y (fun j _ hyj => ?_))
+                rw [hyj, htmp j] at hy; cases hy
+              obtain ⟨sc2, ha, hr, _⟩ := assignTemps_sim te htmp xs es vs k stp.store sc1 htg hlen hheld hrel1
+              rw [ha, ok_bind]
+              left
+              refine ⟨_, rfl, ⟨hst.tr, hst.fl, ?_⟩⟩
+              refine Rel_agree hr (fun y t hy => dropTemps_other _ y _ _ _ (fun j _ _ hyj => ?_))
+              rw [hyj, htmp j] at hy; cases hy
+            · right; exact ub_bind _ hd
+        · cases htr
+      | ctuple k ts xs es => rw [trNested] at htr; cases htr
       | ifs c a b =>
         rw [trNested] at htr
         obtain ⟨a', ha, htr⟩ := bind_ok htr
